@@ -7,6 +7,7 @@ V="$(cd "$(dirname "$0")/.." && pwd)"   # the verification directory this script
 WT="$1"
 for D in $V/seeded/*/; do
   ID=$(basename "$D")
+  if grep -q '"superseded_by"' "$D/meta.json"; then continue; fi
   git -C "$WT" checkout -q -- . ; git -C "$WT" reset -q --hard HEAD
   if git -C "$WT" apply --check "$D/patch.diff" 2>/dev/null; then continue; fi
   if git -C "$WT" apply --3way "$D/patch.diff" >/dev/null 2>&1 && [ -z "$(git -C "$WT" diff --name-only --diff-filter=U)" ]; then
